@@ -47,6 +47,10 @@ CONSTRUCTS: list[tuple[str, str, tuple[int, int] | None]] = [
     ("f`{x}`", f"{X}.pathsearch('f`{{x}}`')", None),
     ("@foo`bar`", f"{X}.pathsearch('@foo`bar`')", None),
     ("rp`x`", f"{X}.pathsearch('rp`x`')", None),
+    # escapes inside the backticks: an escaped backslash right before the closing backtick, an escaped backtick
+    ("`a\\\\`", f"{X}.pathsearch('`a\\\\\\\\`')", None),
+    ("`a\\`b`", f"{X}.pathsearch('`a\\\\`b`')", None),
+    ("g`\\\\`", f"{X}.pathsearch('g`\\\\\\\\`')", None),
     ('p"/tmp"', f'{X}.path_literal("/tmp")', None),
     ("p'/t'", f"{X}.path_literal('/t')", None),
     ('pr"\\d"', f'{X}.path_literal(r"\\d")', None),
@@ -73,7 +77,7 @@ CONSTRUCTS: list[tuple[str, str, tuple[int, int] | None]] = [
     ("(a || b && c)", "(a or b and c)", (1, 12)),
     ("(not a && b)", "(not a and b)", (1, 11)),
 ]
-REPRESENTATIVE = ['pf"/a/{b}" f"{c}"', "${k := 'v'}", "$X", "${ b + 'c' }", "$(ls -l)", "![ ls ]", "`a.*`", "@foo`bar`", 'p"/tmp"', 'pf"/a/{b}"', "x?", "x??", "(a && b)", "(a || b && c)"]
+REPRESENTATIVE = ['pf"/a/{b}" f"{c}"', "${k := 'v'}", "$X", "${ b + 'c' }", "$(ls -l)", "![ ls ]", "`a.*`", "`a\\\\`", "@foo`bar`", 'p"/tmp"', 'pf"/a/{b}"', "x?", "x??", "(a && b)", "(a || b && c)"]
 ENV_TARGETS = [("$X", f"{X}.env['X']"), ("${'a'}", f"{X}.env[str('a')]"), ("${ b + 'c' }", f"{X}.env[str(b + 'c')]")]
 H = HOLE
 TARGET_CONTEXTS = [
